@@ -1,6 +1,7 @@
 package main
 
 import (
+	"crypto/sha256"
 	"fmt"
 	"go/ast"
 	"go/parser"
@@ -68,6 +69,32 @@ func eachStmtList(nd ast.Node, fn func(list []ast.Stmt)) {
 	})
 }
 
+var reflectKinds = map[string]bool{"Bool": true, "Int": true, "Int8": true, "Int16": true, "Int32": true, "Int64": true, "Uint": true,
+	"Uint8": true, "Uint16": true, "Uint32": true, "Uint64": true, "Uintptr": true, "Float32": true, "Float64": true,
+	"Complex64": true, "Complex128": true, "Array": true, "Chan": true, "Func": true, "Interface": true, "Map": true,
+	"Ptr": true, "Pointer": true, "Slice": true, "String": true, "Struct": true, "UnsafePointer": true, "Invalid": true}
+
+// loopRule describes the body of a `for i, v := range values` loop that prepares the operands of a go statement:
+// its statements (normalised text, nested statements flattened by go/printer) and every reflect.Kind it names —
+// a rule that depends on the KIND of the argument shows up in both.
+func loopRule(body *ast.BlockStmt) (stmts []string, kinds []string) {
+	for _, st := range body.List {
+		stmts = append(stmts, exprString(st))
+	}
+	seen := map[string]bool{}
+	ast.Inspect(body, func(nd ast.Node) bool {
+		if se, ok := nd.(*ast.SelectorExpr); ok {
+			if id, ok := se.X.(*ast.Ident); ok && id.Name == "reflect" && reflectKinds[se.Sel.Name] && !seen[se.Sel.Name] {
+				seen[se.Sel.Name] = true
+				kinds = append(kinds, "reflect."+se.Sel.Name)
+			}
+		}
+		return true
+	})
+	sort.Strings(kinds)
+	return
+}
+
 func boolLean(b bool) string {
 	if b {
 		return "true"
@@ -80,6 +107,9 @@ func goFacts(p *pkgInfo) string {
 	un := func(what string) string { return "unrecognised: " + what }
 
 	goBinArgsCopied := false
+	goValueArgLoop, goValueArgKinds := []string{un("call: go branch of function values")}, []string{}
+	callBinGoArgLoop, callBinGoArgKinds := []string{un("callBin: go branch")}, []string{}
+	srcArgLoop, srcArgKinds := []string{un("call: copy of input parameters")}, []string{}
 	srcArgsCopied := false
 	frameInClosure := false
 	var callArgStores, frameCellInits, goStmts, newFrameCalls []string
@@ -130,6 +160,30 @@ func goFacts(p *pkgInfo) string {
 									return true
 								})
 								goBinArgsCopied = fresh && set
+								// the exact rule, for every kind of argument
+								for _, st := range x.Body.List {
+									if rs, ok := st.(*ast.RangeStmt); ok && exprString(rs.X) == "values" {
+										goValueArgLoop, goValueArgKinds = loopRule(rs.Body)
+									}
+								}
+								want := []string{"value := v(f)", "in[i] = reflect.New(value.Type()).Elem()", "in[i].Set(value)"}
+								if strings.Join(goValueArgLoop, ";") != strings.Join(want, ";") || len(goValueArgKinds) != 0 {
+									goBinArgsCopied = false
+								}
+							}
+						}
+					case *ast.RangeStmt:
+						if exprString(x.X) == "values" {
+							isDest := false
+							ast.Inspect(x.Body, func(y ast.Node) bool {
+								if es, ok := y.(*ast.ExprStmt); ok && exprString(es.X) == "dest[i].Set(val)" {
+									isDest = true
+								}
+								return true
+							})
+							if isDest {
+								srcArgLoop, srcArgKinds = loopRule(x.Body)
+								srcArgLoop = []string{fmt.Sprintf("%x", sha256.Sum256([]byte(strings.Join(srcArgLoop, ";"))))[:16]}
 							}
 						}
 					case *ast.AssignStmt:
@@ -205,6 +259,10 @@ func goFacts(p *pkgInfo) string {
 						}
 					case *ast.GoStmt:
 						callBinGoStmt = exprString(s)
+					case *ast.RangeStmt:
+						if exprString(s.X) == "values" {
+							callBinGoArgLoop, callBinGoArgKinds = loopRule(s.Body)
+						}
 					}
 					return true
 				})
@@ -373,16 +431,21 @@ func goFacts(p *pkgInfo) string {
 			cloneCopiesData = mk && cp
 		}
 	}
+	if len(callBinGoArgLoop) != 1 || !strings.HasPrefix(callBinGoArgLoop[0], "in[i] = copyDeferArg(") || len(callBinGoArgKinds) != 0 {
+		callBinGoArgsCopied = false
+	}
 	sort.Strings(goStmts)
 	sort.Strings(newFrameCalls)
 
 	var b strings.Builder
 	b.WriteString("open YaegiVerif.ConcFrames in\n/-- interp/run.go call, callBin, getFunc, genFunctionWrapper, _select; interp/interp.go frame.clone -/\ndef goFacts : GoFacts :=\n")
-	fmt.Fprintf(&b, "  { goBinArgsCopied := %s,\n    srcArgsCopied := %s,\n    frameInClosure := %s,\n    wrapperFramePerCall := %s,\n    wrapperRecvBound := %s,\n    wrapperLateRecv := %s,\n    callBinGoArgsCopied := %s,\n    callBinGoArg := %s,\n    callBinGoStmt := %s,\n    getFuncClones := %s,\n    getFuncAncIsClone := %s,\n    getFuncStoreLocked := %s,\n    getFuncNoDefFrameWrite := %s,\n    cloneLocked := %s,\n    cloneCopiesData := %s,\n    selectDoneLocked := %s,\n    casesPerStatement := %s,\n    selectCopiesCases := %s,\n    callArgStores := %s,\n    frameCellInits := %s,\n    goStmts := %s,\n    newFrameCalls := %s }\n",
+	fmt.Fprintf(&b, "  { goBinArgsCopied := %s,\n    srcArgsCopied := %s,\n    frameInClosure := %s,\n    wrapperFramePerCall := %s,\n    wrapperRecvBound := %s,\n    wrapperLateRecv := %s,\n    callBinGoArgsCopied := %s,\n    callBinGoArg := %s,\n    callBinGoStmt := %s,\n    getFuncClones := %s,\n    getFuncAncIsClone := %s,\n    getFuncStoreLocked := %s,\n    getFuncNoDefFrameWrite := %s,\n    cloneLocked := %s,\n    cloneCopiesData := %s,\n    selectDoneLocked := %s,\n    casesPerStatement := %s,\n    selectCopiesCases := %s,\n    callArgStores := %s,\n    frameCellInits := %s,\n    goStmts := %s,\n    newFrameCalls := %s,\n    goValueArgLoop := %s,\n    goValueArgKinds := %s,\n    callBinGoArgLoop := %s,\n    callBinGoArgKinds := %s,\n    srcArgLoopHash := %s,\n    srcArgKinds := %s }\n",
 		boolLean(goBinArgsCopied), boolLean(srcArgsCopied), boolLean(frameInClosure), boolLean(wrapperFramePerCall), boolLean(wrapperRecvBound), common.LeanStr(wrapperLateRecv),
 		boolLean(callBinGoArgsCopied), common.LeanStr(callBinGoArg), common.LeanStr(callBinGoStmt),
 		boolLean(getFuncClones), boolLean(getFuncAncIsClone), boolLean(getFuncStoreLocked), boolLean(getFuncNoDefFrameWrite),
 		boolLean(cloneLocked), boolLean(cloneCopiesData), boolLean(selectDoneLocked), boolLean(casesPerStatement), boolLean(selectCopiesCases),
-		common.LeanStrList(callArgStores), common.LeanStrList(frameCellInits), common.LeanStrList(goStmts), common.LeanStrList(newFrameCalls))
+		common.LeanStrList(callArgStores), common.LeanStrList(frameCellInits), common.LeanStrList(goStmts), common.LeanStrList(newFrameCalls),
+		common.LeanStrList(goValueArgLoop), common.LeanStrList(goValueArgKinds), common.LeanStrList(callBinGoArgLoop), common.LeanStrList(callBinGoArgKinds),
+		common.LeanStr(srcArgLoop[0]), common.LeanStrList(srcArgKinds))
 	return b.String()
 }
